@@ -64,10 +64,43 @@ secondPassChecked = FunctionSpec(
     note="the second pass: every first-pass row's unaligned fragments (getUnalignedFragments, under contract) are aligned by the same per-query procedure "
          "against the SAME reference list the first pass used (the argument itself, not a selection of it); one result entry per second-pass row")
 
+def _save_log(L):
+    L.set('gsfile', L.callargs[0].t)
+    L.set('gsres', L.callargs[1].t)
+    L.set('gsargs', L.callargs[2].t)
+    L.set('nsave', L.nsave + 1)
+
+
+def _save_ensures(C, res):
+    if not C.proving:
+        return []
+    from pyvc.dsl import ObjView
+    Fv = C.F
+    a = C.self.args
+    written = ObjView(C._e, C._st, VObj(Fv.gsres, ('AlignmentResults',)))
+    return [('one_file_is_written', Fv.nsave == 1),
+            ('to_the_additional_file_of_that_number', z3.And(Fv.gnum == C.fileNumber, Fv.gsfile == Fv.gfile)),
+            ('with_exactly_the_given_rows_under_the_names_of_the_two_input_files_and_the_run_arguments', z3.And(
+                same_list(written.rows, C.rowsWithoutSubsequentAlignmentsForSingleQueryRest),
+                written.referenceFilePath.ref == a.referenceFile.name.ref, written.queryFilePath.ref == a.queryFile.name.ref, Fv.gsargs == a.ref))]
+
+
+def _open_log(L):
+    L.set('gnum', L._e.num(L.callargs[0]))
+    L.set('gfile', L.result.ref)
+
+
+_none = lambda C: z3.Const('g_nofile', Ref)
 save = FunctionSpec(
     file=F, qualname='_MultiPassWorkflowCoordinator.saveAdditionalOutput',
-    params=dict(self=MP_, rowsWithoutSubsequentAlignmentsForSingleQueryRest=LIST(ROW), fileNumber=INT), returns=NONE, trusted=True, serves=('C08',),
-    note="ASSUMED: writes the rows to <output>_<fileNumber>; the verified caller logs (fileNumber, rows) in ghost state")
+    params=dict(self=MP_, rowsWithoutSubsequentAlignmentsForSingleQueryRest=LIST(ROW), fileNumber=INT), returns=NONE, ensures=_save_ensures, serves=('C08',),
+    ghost={'gsfile': _none, 'gsres': _none, 'gsargs': _none, 'gfile': _none, 'nsave': lambda C: z3.IntVal(0), 'gnum': lambda C: z3.IntVal(-1)},
+    ghost_at={'call:writeAlignments#0': _save_log, 'call:createAdditionalOutputFile#0': _open_log},
+    note="writes exactly the given rows (an AlignmentResults built directly from them, under the two input file names) with the run's arguments to the file "
+         "created for that file number; the file creation and the writer are assumed (string formatting / pandas); callers see only the ghost log they keep")
+create_additional = FunctionSpec(
+    file=F, qualname='_MultiPassWorkflowCoordinator.createAdditionalOutputFile', params=dict(self=MP_, number=INT), returns=OBJ('TextIO'), trusted=True,
+    serves=('C08',), note="ASSUMED (os.path.splitext / str.format / open): opens <output name>_<number><extension> for writing; the name is checked by the bounded part of C08")
 
 # AlignmentResults.resolve: contract in specs/result_row.py (verified there; used here through its contract)
 
@@ -176,4 +209,4 @@ execute = FunctionSpec(
          "same symbolic values in every mode, so main(all)=main(joined), _1(all)=main(separate), _2(all)=_1(separate) follow by congruence",
 )
 
-SPECS = [secondPass, secondPassChecked, save, execute]
+SPECS = [secondPass, secondPassChecked, save, create_additional, execute]
